@@ -224,7 +224,17 @@ func TestVerifStoreCoordReplay(t *testing.T) {
 			}
 			line := map[string]any{"ev": st.A, "g": st.G, "t": st.T, "p": st.P, "o": st.O, "m": st.M, "good": st.Good, "ti": ti}
 			for name, side := range sides {
-				line[name] = side.apply(t, ctx, st, ti, &s)
+				col := side.apply(t, ctx, st, ti, &s)
+				line[name] = col
+				// UNKNOWN_SERVER_ERROR is only produced when the store call itself failed (etcd timeout under load): no verdict
+				bad := col["code"] == int16(protocol.UNKNOWN_SERVER_ERROR)
+				for _, v := range col["after"].([]vsView) {
+					bad = bad || v.Code == protocol.UNKNOWN_SERVER_ERROR
+				}
+				if bad {
+					w.Flush()
+					t.Fatalf("infrastructure error: the %s store failed during %s (no verdict)", name, st.A)
+				}
 			}
 			emit(line)
 		}
